@@ -32,7 +32,6 @@
 #include "stir/SeparableGaussianArrayFilter.h"
 #include "stir/SeparableMetzArrayFilter.h"
 #include "stir/SeparableConvolutionImageFilter.h"
-#include "stir/BoundaryConditions.h"
 #include "stir/Succeeded.h"
 #include <complex>
 #include <functional>
@@ -85,6 +84,7 @@ static VectorWithOffset<float> to_vwo(const ND& k, bool empty)
   for (int i = k.r[0].lo; i <= k.r[0].hi; ++i) v[i] = (float)k.at(i);
   return v;
 }
+static std::string clean(std::string s) { for (char& c : s) if (c == '\t' || c == '\n' || c == '\r') c = ' '; return s; }
 static uint64_t hmix(std::initializer_list<long long> l)
 {
   uint64_t h = 1469598103934665603ULL;
@@ -237,7 +237,13 @@ struct Dft
               for (size_t j = 0; j < N; ++j) { double e = std::abs(fall[j] - keep[j]); if (!(e <= m)) { m = e; mj = j; } }
               if (!(m <= tolr)) viol("real_vs_complex", "pos_frequencies_to_all", k, 0, "pos_frequencies_to_all(fourier_for_real_data(x)) differs from fourier(x) at j=" + vmc::str(mj) + " by " + vmc::str(m) + " > tol " + vmc::str(tolr));
             }
-          AR back = inverse_fourier_for_real_data(pos, sign);
+          AR back;
+          std::string what;
+          if (small::throws([&] { back = inverse_fourier_for_real_data(pos, sign); }, &what))
+            { // STIR refuses to invert what it transformed: recorded, not a failure (rule: rejected configurations)
+              if (k == 0) { ctx.count("rejected_configs"); ctx.observe("inverse_fourier_for_real_data rejects the result of fourier_for_real_data for last dimension of length " + vmc::str(nl) + ": " + clean(what.substr(0, 100))); }
+              continue;
+            }
           ctx.count("evaluations");
           if (!flat(fr, back, n, nl)) viol("shape", "real", k, 0, "inverse_fourier_for_real_data() result does not have the sizes of the original");
           else
@@ -301,8 +307,8 @@ struct Dft
                     { double e = std::abs(cd(fpos[jo * nh + jl]) - sref[s][jo * nl + jl]); if (!(e <= m)) { m = e; mj = jo * nl + jl; } }
                 if (!(m <= tolr * sa))
                   ctx.violation("part=dft;clause=linearity" + kt + ";route=real", kase, "superposition " + vmc::str(s) + ": fourier_for_real_data[j=" + vmc::str(mj) + "] differs from the sum of closed forms by " + vmc::str(m) + " > " + vmc::str(tolr * sa));
-                AR back = inverse_fourier_for_real_data(pos, sign);
-                if (flat(fr, back, n, nl))
+                AR back;
+                if (!small::throws([&] { back = inverse_fourier_for_real_data(pos, sign); }) && flat(fr, back, n, nl))
                   {
                     m = 0;
                     for (size_t j = 0; j < N; ++j) { double e = std::fabs(fr[j] - sx[s][j].real()); if (!(e <= m)) { m = e; mj = j; } }
@@ -612,7 +618,7 @@ static void convnd_group(vmc::Ctx& ctx, const ND& k, const ND& xshape, int only_
               // class of the kernel: what a maintainer needs to tell the defects apart
               int nz = 0; for (double c : k.v) nz += c != 0;
               const std::string kclass = std::string(k.r[0] == Rg(0, 0) ? "outer_range_0:0" : "outer_range_other") + (k.inside(0, 0, 0) && k.at(0, 0, 0) == 1 && nz > 1 ? ",origin_tap_1_plus_others" : "");
-              ctx.violation("part=" + part + ";clause=convolution;mode=" + vmc::str(mode) + ";kernel=" + kclass, gcase + ";mode=" + vmc::str(mode) + ";x=" + rf::vals_str(x),
+              ctx.violation("part=" + part + ";clause=convolution;kernel=" + kclass, gcase + ";mode=" + vmc::str(mode) + ";x=" + rf::vals_str(x),
                             ok_shape ? "out" + where + " (reference: direct sum over all kernel taps, zero outside the input)" : "output index range changed");
             }
         }
@@ -702,7 +708,11 @@ static void dftfilt_group(vmc::Ctx& ctx, const ND& k, const ND& xshape, int only
   std::unique_ptr<ArrayFilterUsingRealDFTWithPadding<D, float>> filter;
   std::string what;
   if (small::throws([&] { filter.reset(new ArrayFilterUsingRealDFTWithPadding<D, float>(to_stir<D>(k))); }, &what))
-    { ctx.count("rejected_configs"); ctx.observe("dftfilt kernel shape " + rf::shape_str(k, D) + " rejected: " + what.substr(0, 100)); return; }
+    {
+      static std::set<std::string> seen0;
+      if (seen0.insert(rf::shape_str(k, D)).second) { ctx.count("rejected_configs"); ctx.observe("dftfilt kernel shape " + rf::shape_str(k, D) + " rejected: " + clean(what.substr(0, 100))); }
+      return;
+    }
   size_t Ptot = k.size();
   for (int mode = 0; mode < 3; ++mode)
     {
@@ -717,8 +727,13 @@ static void dftfilt_group(vmc::Ctx& ctx, const ND& k, const ND& xshape, int only
           Array<D, float> in_a = to_stir<D>(x);
           Array<D, float> out_a(stir_range<D>(oshape));
           out_a.fill(-77.F);
-          if (mode == 0) { out_a = in_a; (*filter)(out_a); }
-          else (*filter)(out_a, in_a);
+          if (small::throws([&] { if (mode == 0) { out_a = in_a; (*filter)(out_a); } else (*filter)(out_a, in_a); }, &what))
+            {
+              static std::set<std::string> seen;
+              if (seen.insert(rf::shape_str(k, D)).second) { ctx.count("rejected_configs"); ctx.observe("dftfilt kernel shape " + rf::shape_str(k, D) + ": filter constructed but operator() throws: " + clean(what.substr(0, 100))); }
+              ctx.count("dftfilt_groups_rejected_at_apply");
+              return;
+            }
           ctx.count("evaluations"); ctx.count("dftfilt_cases");
           ND got;
           const bool ok_shape = from_stir<D>(got, out_a) && got.same_shape(ref);
@@ -913,7 +928,460 @@ static void list_sep(bool th, std::vector<std::string>& units)
     units.push_back("part=sep;u=1;a=" + vmc::str(a) + "," + vmc::str(b) + "," + vmc::str(c));
 }
 
-//@@PARTS@@
+// ------------------------------------------------------------------------------------------------
+// parts gauss / metz : SeparableGaussianArrayFilter<3,float>, SeparableMetzArrayFilter<3,float>
+// ------------------------------------------------------------------------------------------------
+static const double FWHMS[5] = { 0, 0.5, 1, 2.5, 6 };
+static const double VOXS[3] = { 0.5, 1, 3 };
+static const int MKS[5] = { -1, 1, 3, 9, 0 };
+static const bool g_debug = getenv("C19_DEBUG") != nullptr;
+
+static ND line_shape(int axis, int n, int other = 2)
+{
+  Rg r[3];
+  for (int d = 0; d < 3; ++d) r[d] = d == axis ? Rg(0, n - 1) : Rg(0, other - 1);
+  return ND(r[0], r[1], r[2]);
+}
+static double& along(ND& a, int axis, int i, int o1 = 0, int o2 = 0)
+{
+  int c[3]; int q = 0;
+  for (int d = 0; d < 3; ++d) c[d] = d == axis ? i : (q++ == 0 ? o1 : o2);
+  return a.at(c[0], c[1], c[2]);
+}
+// apply f in place to x, read back; false if the shape changed
+template <class F>
+static bool apply3(const F& f, const ND& x, ND& got)
+{
+  Array<3, float> a = to_stir<3>(x);
+  f(a);
+  return from_stir<3>(got, a) && got.same_shape(x);
+}
+// checks shared by both filters on the response to a centred impulse: only the filtered axis is touched, symmetric
+static bool axis_response(vmc::Ctx& ctx, const std::string& name, const std::string& kase, const ND& got, int axis, int n, int c, std::vector<double>& r)
+{
+  r.assign(n, 0.0);
+  ND g = got;
+  double off = 0;
+  for (int i = 0; i < n; ++i)
+    for (int o1 = 0; o1 < 2; ++o1)
+      for (int o2 = 0; o2 < 2; ++o2)
+        {
+          const double v = along(g, axis, i, o1, o2);
+          if (o1 == 0 && o2 == 0) r[i] = v; else off = std::max(off, std::fabs(v));
+        }
+  if (off != 0) { ctx.violation("part=" + name + ";clause=acts_on_its_axis_only", kase, "impulse on the line (.,0,0) of axis " + vmc::str(axis) + " leaks to other lines: max " + vmc::str(off)); return false; }
+  double asym = 0;
+  for (int i = 0; c + i < n && c - i >= 0; ++i) asym = std::max(asym, std::fabs(r[c + i] - r[c - i]));
+  if (!(asym <= 1e-6 * std::fabs(r[c]))) { ctx.violation("part=" + name + ";clause=symmetric_kernel", kase, "impulse response not symmetric: max difference " + vmc::str(asym)); return false; }
+  return true;
+}
+
+static void run_gauss_single(vmc::Ctx& ctx, int axis, int fi, int vi, int mi)
+{
+  const std::string kase = "part=gauss;axis=" + vmc::str(axis) + ";f=" + vmc::str(fi) + ";v=" + vmc::str(vi) + ";m=" + vmc::str(mi);
+  ctx.current("part=gauss", kase);
+  const float fw = (float)(FWHMS[fi] / VOXS[vi]);
+  const int mks = MKS[mi];
+  BasicCoordinate<3, float> f(0.F); BasicCoordinate<3, int> m(-1);
+  f[axis + 1] = fw; m[axis + 1] = mks;
+  std::unique_ptr<SeparableGaussianArrayFilter<3, float>> g;
+  std::string what;
+  if (small::throws([&] { g.reset(new SeparableGaussianArrayFilter<3, float>(f, m, true)); }, &what))
+    { ctx.count("rejected_configs"); if (mks != 0) ctx.observe("gauss " + kase + " rejected: " + what.substr(0, 120)); return; }
+  ctx.count("gauss_configs");
+  const std::string kt = std::string(";max_kernel_size=") + (mks < 0 ? "auto" : "given");
+  ND got;
+  if (fw == 0)
+    { // FWHM 0: the identity
+      ND x = line_shape(axis, 5); for (size_t j = 0; j < x.v.size(); ++j) x.v[j] = (double)(j + 1);
+      ctx.count("evaluations");
+      if (!apply3(*g, x, got) || rf::max_diff(got, x) != 0) ctx.violation("part=gauss;clause=fwhm0_identity", kase, "FWHM 0 does not leave the data unchanged");
+      return;
+    }
+  const double sigma = (double)fw / std::sqrt(8 * std::log(2.));
+  const int hdoc = mks > 0 ? mks / 2 : (int)std::ceil(sigma * std::sqrt(-2 * std::log(1e-6)));
+  const int hb = hdoc + 1, n = 2 * hb + 3, c = hb + 1;
+  ND x = line_shape(axis, n);
+  along(x, axis, c) = 1;
+  ctx.count("evaluations");
+  if (!apply3(*g, x, got)) { ctx.violation("part=gauss;clause=shape", kase, "index range changed"); return; }
+  std::vector<double> r;
+  if (!axis_response(ctx, "gauss", kase, got, axis, n, c, r)) return;
+  int hobs = 0;
+  for (int i = 0; i < n; ++i) if (r[i] != 0) hobs = std::max(hobs, std::abs(i - c));
+  if (mks > 0 && hobs > mks / 2)
+    { ctx.violation("part=gauss;clause=truncation" + kt, kase, "impulse response extends to +-" + vmc::str(hobs) + " with max_kernel_size " + vmc::str(mks)); return; }
+  if (hobs > hb) { ctx.observe("gauss " + kase + ": automatic kernel half-length " + vmc::str(hobs) + " larger than documented ~1e-6 rule " + vmc::str(hdoc) + "; interior checks skipped"); ctx.count("gauss_configs_skipped"); return; }
+  const int h = mks > 0 ? mks / 2 : hobs;
+  // sampled Gaussian: k_i / k_0 = exp(-i^2 / (2 sigma^2))
+  double worst = 0; int wi = 0;
+  for (int i = 1; i <= h; ++i)
+    {
+      const double want = std::exp(-(double)i * i / (2 * sigma * sigma));
+      const double e = std::fabs(r[c + i] / r[c] - want) - (1e-4 * want + 1e-30);
+      if (e > worst) { worst = e; wi = i; }
+    }
+  if (worst > 0)
+    ctx.violation("part=gauss;clause=gaussian_samples" + kt, kase, "k[" + vmc::str(wi) + "]/k[0] = " + vmc::str(r[c + wi] / r[c]) + " expected exp(-i^2/(2 sigma^2)) = " + vmc::str(std::exp(-(double)wi * wi / (2 * sigma * sigma))) + " sigma " + vmc::str(sigma));
+  double sum = 0; for (double v : r) sum += v;
+  if (g_debug) fprintf(stderr, "gauss %s fw=%g h=%d sum-1=%g\n", kase.c_str(), fw, h, sum - 1);
+  if (!(std::fabs(sum - 1) <= 1e-5))
+    ctx.violation("part=gauss;clause=kernel_sum_one" + kt, kase, "sum of the impulse response is " + rf::num_str(sum) + " (kernel half-length " + vmc::str(h) + ")");
+  // constant data: preserved wherever the kernel support is inside the data
+  ND cst = line_shape(axis, n); cst.v.assign(cst.v.size(), 3.0);
+  ctx.count("evaluations");
+  if (apply3(*g, cst, got))
+    {
+      double dev = 0; int points = 0;
+      for (int i = h; i <= n - 1 - h; ++i) { dev = std::max(dev, std::fabs(along(got, axis, i, 1, 1) - 3.0)); ++points; }
+      ctx.count("mean_preservation_points", points);
+      if (!(dev <= 3e-5 * 3))
+        ctx.violation("part=gauss;clause=mean_preserved" + kt, kase, "constant data 3 become " + rf::num_str(3 + dev) + "/" + rf::num_str(3 - dev) + " where the whole kernel support is inside the data");
+    }
+  if (h > 0) ctx.nontrivial(vmc::fnv(kase));
+  if (mks > 0 && std::exp(-(double)(h + 1) * (h + 1) / (2 * sigma * sigma)) > 1e-3) ctx.count("gauss_configs_truncated_by_max_kernel_size");
+  if (ctx.samples.size() < 2 && h >= 2) ctx.sample(kase + ": fwhm/voxel " + vmc::str(fw) + " half-length " + vmc::str(h) + " k1/k0 " + vmc::str(r[c + 1] / r[c]) + " sum " + rf::num_str(sum));
+}
+// all three axes filtered: the response to a 3-D impulse is the outer product of the three single-axis responses
+static void run_gauss_mixed(vmc::Ctx& ctx, int idx)
+{
+  const std::string kase = "part=gauss;mix=" + vmc::str(idx);
+  ctx.current("part=gauss", kase);
+  BasicCoordinate<3, float> f(0.F); BasicCoordinate<3, int> m(-1);
+  int hb[3];
+  for (int d = 0; d < 3; ++d)
+    {
+      const int cfg = (idx + d * 7 + d * d * 3) % 48; // 4 non-zero FWHM x 3 voxel sizes x 4 kernel sizes
+      const int fi = 1 + cfg % 4, vi = (cfg / 4) % 3, mi = cfg / 12;
+      f[d + 1] = (float)(FWHMS[fi] / VOXS[vi]); m[d + 1] = MKS[mi];
+      const double sigma = (double)f[d + 1] / std::sqrt(8 * std::log(2.));
+      hb[d] = std::min(6, (m[d + 1] > 0 ? m[d + 1] / 2 : (int)std::ceil(sigma * std::sqrt(-2 * std::log(1e-6)))));
+    }
+  SeparableGaussianArrayFilter<3, float> g(f, m, true);
+  ND x(Rg(0, 2 * hb[0]), Rg(0, 2 * hb[1]), Rg(0, 2 * hb[2]));
+  x.at(hb[0], hb[1], hb[2]) = 1;
+  ND got;
+  ctx.count("evaluations"); ctx.count("gauss_mixed_configs");
+  if (!apply3(g, x, got)) { ctx.violation("part=gauss;clause=shape", kase, "index range changed"); return; }
+  // single-axis responses from three separate objects
+  std::vector<double> r[3];
+  for (int d = 0; d < 3; ++d)
+    {
+      BasicCoordinate<3, float> f1(0.F); BasicCoordinate<3, int> m1(-1);
+      f1[d + 1] = f[d + 1]; m1[d + 1] = m[d + 1];
+      SeparableGaussianArrayFilter<3, float> g1(f1, m1, true);
+      ND y = x, gy;
+      apply3(g1, y, gy);
+      r[d].resize(2 * hb[d] + 1);
+      for (int i = 0; i <= 2 * hb[d]; ++i) { int c[3] = { hb[0], hb[1], hb[2] }; c[d] = i; r[d][i] = gy.at(c[0], c[1], c[2]); }
+    }
+  ND ref = x;
+  for (int i = 0; i <= 2 * hb[0]; ++i) for (int j = 0; j <= 2 * hb[1]; ++j) for (int l = 0; l <= 2 * hb[2]; ++l) ref.at(i, j, l) = r[0][i] * r[1][j] * r[2][l];
+  std::string where;
+  if (!(rf::max_diff(got, ref, &where) <= 1e-5 * r[0][hb[0]] * r[1][hb[1]] * r[2][hb[2]]))
+    ctx.violation("part=gauss;clause=separable_product", kase, "3-D impulse response is not the product of the single-axis responses: " + where);
+  ctx.nontrivial(vmc::fnv(kase));
+}
+static void run_gauss(vmc::Ctx& ctx, const std::string& kase)
+{
+  auto m = vmc::kv(kase);
+  if (m.count("mix")) run_gauss_mixed(ctx, atoi(m["mix"].c_str()));
+  else run_gauss_single(ctx, atoi(m["axis"].c_str()), atoi(m["f"].c_str()), atoi(m["v"].c_str()), atoi(m["m"].c_str()));
+}
+static void list_gauss(bool th, std::vector<std::string>& units)
+{
+  for (int axis = 0; axis < 3; ++axis) for (int fi = 0; fi < 5; ++fi) for (int vi = 0; vi < 3; ++vi) for (int mi = 0; mi < 5; ++mi)
+    units.push_back("part=gauss;axis=" + vmc::str(axis) + ";f=" + vmc::str(fi) + ";v=" + vmc::str(vi) + ";m=" + vmc::str(mi));
+  for (int i = 0; i < (th ? 48 : 8); ++i) units.push_back("part=gauss;mix=" + vmc::str(i));
+}
+
+// ---- Metz
+static const double METZ_GAIN_TOL = 2e-3;
+static SeparableMetzArrayFilter<3, float>* make_metz(int axis, double fwhm, double vox, int mks, double power)
+{
+  VectorWithOffset<float> fw(1, 3), pw(1, 3); VectorWithOffset<int> mk(1, 3);
+  fw.fill(0.F); pw.fill(0.F); mk.fill(-1);
+  fw[axis + 1] = (float)fwhm; pw[axis + 1] = (float)power; mk[axis + 1] = mks;
+  BasicCoordinate<3, float> sd((float)vox);
+  return new SeparableMetzArrayFilter<3, float>(fw, pw, sd, mk);
+}
+static int metz_klen(const SeparableMetzArrayFilter<3, float>& f, int axis, std::vector<double>* coeffs = nullptr)
+{
+  auto* p = dynamic_cast<const ArrayFilter1DUsingConvolutionSymmetricKernel<float>*>(f.all_1d_array_filters[axis].get());
+  if (!p) return -1;
+  if (coeffs) { coeffs->clear(); for (int i = p->filter_coefficients.get_min_index(); i <= p->filter_coefficients.get_max_index(); ++i) coeffs->push_back(p->filter_coefficients[i]); }
+  return p->filter_coefficients.get_length();
+}
+static void run_metz(vmc::Ctx& ctx, const std::string& kase)
+{
+  auto mm = vmc::kv(kase);
+  const int axis = atoi(mm["axis"].c_str()), fi = atoi(mm["f"].c_str()), vi = atoi(mm["v"].c_str()), mi = atoi(mm["m"].c_str()), pw = atoi(mm["p"].c_str());
+  ctx.current("part=metz", kase);
+  const int mks = MKS[mi];
+  const std::string kt = ";power=" + vmc::str(pw);
+  std::unique_ptr<SeparableMetzArrayFilter<3, float>> g, full;
+  std::string what;
+  if (small::throws([&] { g.reset(make_metz(axis, FWHMS[fi], VOXS[vi], mks, pw)); full.reset(make_metz(axis, FWHMS[fi], VOXS[vi], -1, pw)); }, &what))
+    { ctx.count("rejected_configs"); ctx.observe("metz " + kase + " rejected: " + what.substr(0, 120)); return; }
+  ctx.count("metz_configs");
+  std::vector<double> coeffs;
+  const int klen = metz_klen(*g, axis, &coeffs), klen_full = metz_klen(*full, axis);
+  if (klen < 0 || klen_full < 0) { ctx.observe("metz: 1-D filter is not an ArrayFilter1DUsingConvolutionSymmetricKernel; part skipped"); return; }
+  ND got;
+  if (FWHMS[fi] == 0 || klen == 0 || (klen == 1 && coeffs[0] == 1))
+    {
+      ND x = line_shape(axis, 5); for (size_t j = 0; j < x.v.size(); ++j) x.v[j] = (double)(j + 1);
+      ctx.count("evaluations"); ctx.count("metz_identity_configs");
+      if (!apply3(*g, x, got) || rf::max_diff(got, x) != 0) ctx.violation("part=metz;clause=trivial_identity", kase, "FWHM 0 / empty kernel does not leave the data unchanged");
+      return;
+    }
+  const int h = klen - 1, n = 2 * h + 3, c = h + 1;
+  ND x = line_shape(axis, n);
+  along(x, axis, c) = 1;
+  ctx.count("evaluations");
+  if (!apply3(*g, x, got)) { ctx.violation("part=metz;clause=shape", kase, "index range changed"); return; }
+  std::vector<double> r;
+  if (!axis_response(ctx, "metz", kase, got, axis, n, c, r)) return;
+  // the filter is the convolution with its (symmetric) kernel coefficients
+  double dev = 0;
+  for (int i = 0; i < n; ++i) { const int a = std::abs(i - c); dev = std::max(dev, std::fabs(r[i] - (a < klen ? coeffs[a] : 0.0))); }
+  if (!(dev <= 1e-6 * std::fabs(coeffs[0])))
+    ctx.violation("part=metz;clause=convolution_with_own_kernel", kase, "impulse response differs from the kernel coefficients by " + vmc::str(dev));
+  if (mks > 0 && 2 * klen - 1 > mks)
+    ctx.violation("part=metz;clause=truncation", kase, "kernel has " + vmc::str(2 * klen - 1) + " elements with max_kernel_size " + vmc::str(mks));
+  double sum = 0; for (double v : r) sum += v;
+  const bool truncated = klen < klen_full;
+  if (g_debug) fprintf(stderr, "metz %s fwhm=%g vox=%g mks=%d p=%d klen=%d full=%d gain-1=%g\n", kase.c_str(), FWHMS[fi], VOXS[vi], mks, pw, klen, klen_full, sum - 1);
+  if (truncated) { ctx.count("metz_configs_truncated_not_normalised"); ctx.observe("metz kernel truncated by max_kernel_size is not renormalised (sum " + vmc::str(sum) + " for " + kase + "): 'kernel sums to one' does not apply, mean not checked"); return; }
+  if (pw != 0) { ctx.count("metz_configs_power_nonzero_gain_observed_only"); ctx.maxi("metz_power1_max_gain_error_ppm", (long long)std::llround(std::fabs(sum - 1) * 1e6)); return; }
+  ctx.maxi("metz_power0_max_gain_error_ppm", (long long)std::llround(std::fabs(sum - 1) * 1e6));
+  ctx.nontrivial(vmc::fnv(kase));
+  if (!(std::fabs(sum - 1) <= METZ_GAIN_TOL))
+    ctx.violation("part=metz;clause=kernel_sum_one" + kt, kase, "sum of the impulse response (zero power, not truncated) is " + rf::num_str(sum));
+  ND cst = line_shape(axis, n); cst.v.assign(cst.v.size(), 3.0);
+  ctx.count("evaluations");
+  if (apply3(*g, cst, got))
+    {
+      double d2 = 0; int points = 0;
+      for (int i = h; i <= n - 1 - h; ++i) { d2 = std::max(d2, std::fabs(along(got, axis, i, 1, 1) - 3.0)); ++points; }
+      ctx.count("mean_preservation_points", points);
+      if (!(d2 <= METZ_GAIN_TOL * 3))
+        ctx.violation("part=metz;clause=mean_preserved" + kt, kase, "constant data 3 become " + rf::num_str(3 + d2) + "/" + rf::num_str(3 - d2) + " where the whole kernel support is inside the data");
+    }
+}
+static void list_metz(bool, std::vector<std::string>& units)
+{
+  for (int axis = 0; axis < 3; ++axis) for (int pw = 0; pw < 2; ++pw) for (int fi = 0; fi < 5; ++fi) for (int vi = 0; vi < 3; ++vi) for (int mi = 0; mi < 4; ++mi)
+    units.push_back("part=metz;axis=" + vmc::str(axis) + ";f=" + vmc::str(fi) + ";v=" + vmc::str(vi) + ";m=" + vmc::str(mi) + ";p=" + vmc::str(pw));
+}
+
+// ------------------------------------------------------------------------------------------------
+// part imgfilter : SeparableConvolutionImageFilter<float> (z,y,x kernels; constructor and setter routes)
+// ------------------------------------------------------------------------------------------------
+static void imgfilter_group(vmc::Ctx& ctx, int route, int a0, int a1, int a2, const ND& xshape, int only_mode = -1, const std::string& only_x = "")
+{
+  const std::vector<K1> al = sep_alphabet(false);
+  const K1 ks[3] = { al[a0], al[a1], al[a2] };
+  const std::string gcase = "part=imgfilter;route=" + vmc::str(route) + ";a=" + vmc::str(a0) + "," + vmc::str(a1) + "," + vmc::str(a2) + ";in=" + rf::shape_str(xshape, 3);
+  const std::string kt = std::string(";route=") + (route == 0 ? "constructor" : "setters");
+  ctx.current("part=imgfilter" + kt, gcase);
+  VectorWithOffset<VectorWithOffset<float>> coeffs(3);
+  for (int d = 0; d < 3; ++d) coeffs[d] = to_vwo(ks[d].k, ks[d].empty);
+  std::unique_ptr<SeparableConvolutionImageFilter<float>> filter;
+  if (route == 0) filter.reset(new SeparableConvolutionImageFilter<float>(coeffs));
+  else { filter.reset(new SeparableConvolutionImageFilter<float>()); for (int d = 0; d < 3; ++d) filter->set_filter_coefficients(d, coeffs[d]); }
+  const CartesianCoordinate3D<float> org(0.F, 0.F, 0.F), vox(2.F, 1.5F, 1.5F);
+  for (int mode = 0; mode < 2; ++mode)
+    {
+      if (only_mode >= 0 && mode != only_mode) continue;
+      for (const ND& x : data_family(xshape))
+        {
+          if (!only_x.empty() && rf::vals_str(x) != only_x) continue;
+          const ND ref = sep_ref(x, ks, PERMS[0]);
+          VoxelsOnCartesianGrid<float> in_im(to_stir<3>(x), org, vox), out_im(to_stir<3>(x), org, vox);
+          out_im.fill(-77.F);
+          if (mode == 0) { out_im = in_im; filter->apply(out_im); }
+          else filter->apply(out_im, in_im);
+          ctx.count("evaluations"); ctx.count("imgfilter_cases");
+          ND got;
+          std::string where;
+          double scale = x.sum_abs();
+          for (int d = 0; d < 3; ++d) if (!ks[d].empty) scale *= ks[d].k.sum_abs();
+          const bool ok_shape = from_stir<3>(got, out_im) && got.same_shape(ref);
+          if (ref.sum_abs() > 0 && (!ks[0].empty || !ks[1].empty || !ks[2].empty)) ctx.nontrivial(vmc::fnv(gcase + "|" + vmc::str(mode) + "|" + rf::vals_str(x)));
+          if (!ok_shape || !(rf::max_diff(got, ref, &where) <= 1e-5 * scale))
+            ctx.violation("part=imgfilter;clause=convolution" + kt + ";mode=" + vmc::str(mode), gcase + ";mode=" + vmc::str(mode) + ";x=" + rf::vals_str(x),
+                          ok_shape ? "out" + where + " (reference: 1-D convolutions along z, y, x)" : "output index range changed");
+        }
+    }
+}
+static void run_imgfilter(vmc::Ctx& ctx, const std::string& kase)
+{
+  auto m = vmc::kv(kase);
+  const std::vector<int> a = vmc::ints(m["a"]);
+  const int route = atoi(m["route"].c_str());
+  if (m.count("u"))
+    {
+      for (const ND& s : sep_shapes(false)) imgfilter_group(ctx, route, a[0], a[1], a[2], s);
+      ctx.count("imgfilter_units");
+      return;
+    }
+  imgfilter_group(ctx, route, a[0], a[1], a[2], rf::parse_nd(m["in"], ""), m.count("mode") ? atoi(m["mode"].c_str()) : -1, m.count("x") ? m["x"] : "");
+}
+static void list_imgfilter(bool, std::vector<std::string>& units)
+{
+  const int n = (int)sep_alphabet(false).size();
+  for (int route = 0; route < 2; ++route)
+    for (int a = 0; a < n; ++a) for (int b = 0; b < n; ++b) for (int c = 0; c < n; ++c)
+      units.push_back("part=imgfilter;u=1;route=" + vmc::str(route) + ";a=" + vmc::str(a) + "," + vmc::str(b) + "," + vmc::str(c));
+}
+
+// ------------------------------------------------------------------------------------------------
+// dispatch, forked execution (memory-unsafe parts), main
+// ------------------------------------------------------------------------------------------------
+static void run_case(vmc::Ctx& ctx, const std::string& kase)
+{
+  auto m = vmc::kv(kase);
+  const std::string part = m["part"];
+  if (part == "dft") run_dft(ctx, kase);
+  else if (part == "conv1d") { if (m.count("u")) conv1d_unit(ctx, kase); else run_conv1d(ctx, kase); }
+  else if (part == "conv1s") run_conv1s(ctx, kase);
+  else if (part == "conv2d") run_convnd<2>(ctx, kase);
+  else if (part == "conv3d") run_convnd<3>(ctx, kase);
+  else if (part == "dftfilt") run_dftfilt(ctx, kase);
+  else if (part == "sep") run_sep(ctx, kase);
+  else if (part == "gauss") run_gauss(ctx, kase);
+  else if (part == "metz") run_metz(ctx, kase);
+  else if (part == "imgfilter") run_imgfilter(ctx, kase);
+  else { fprintf(stderr, "unknown part in case '%s'\n", kase.c_str()); exit(2); }
+}
+
+// Run one unit in a forked child with its own Ctx; merge the child's results.  If the child dies (SEGV, ASan report)
+// the case it recorded with Ctx::current becomes a "crash;" violation and the enumeration continues with the next unit.
+static void run_forked(vmc::Ctx& ctx, const std::string& unit_case)
+{
+  static int seq = 0;
+  const std::string base = ctx.tmpdir + "/c19_child_" + vmc::str((int)getpid()) + "_" + vmc::str(seq++);
+  fflush(stdout); fflush(stderr);
+  const pid_t pid = fork();
+  if (pid < 0) { perror("fork"); exit(2); }
+  if (pid == 0)
+    {
+      int fd = ::open((base + ".err").c_str(), O_CREAT | O_WRONLY | O_TRUNC, 0644);
+      if (fd >= 0) { dup2(fd, 2); close(fd); }
+      vmc::Ctx sub(0, nullptr, "C19");
+      sub.tier = ctx.tier; sub.tmpdir = ctx.tmpdir; sub.out = base; sub.t0 = ctx.t0; sub.deadline_s = ctx.deadline_s;
+      run_case(sub, unit_case);
+      FILE* f = fopen((base + ".res").c_str(), "w");
+      if (!f) _exit(3);
+      for (auto& kv : sub.counters) fprintf(f, "C\t%s\t%lld\n", kv.first.c_str(), kv.second);
+      for (auto& kv : sub.maxima) fprintf(f, "M\t%s\t%lld\n", kv.first.c_str(), kv.second);
+      for (auto& v : sub.violations) fprintf(f, "V\t%s\t%s\t%s\n", clean(v.key).c_str(), clean(v.kase).c_str(), clean(v.msg).c_str());
+      for (auto& s : sub.samples) fprintf(f, "S\t%s\n", clean(s).c_str());
+      for (auto& s : sub.observations) fprintf(f, "O\t%s\n", clean(s).c_str());
+      for (uint64_t h : sub.distinct) fprintf(f, "D\t%llu\n", (unsigned long long)h);
+      fprintf(f, "E\tend\n");
+      fclose(f);
+      _exit(0);
+    }
+  int status = 0;
+  while (waitpid(pid, &status, 0) < 0 && errno == EINTR) {}
+  bool complete = false;
+  {
+    std::ifstream f(base + ".res");
+    std::string line;
+    std::vector<std::string> lines;
+    while (std::getline(f, line)) { lines.push_back(line); if (line == "E\tend") complete = true; }
+    if (complete && WIFEXITED(status) && WEXITSTATUS(status) == 0)
+      for (auto& l : lines)
+        {
+          std::vector<std::string> p = vmc::split(l, '\t');
+          if (p[0] == "C" && p.size() == 3) { if (p[1] != "distinct_nontrivial") ctx.counters[p[1]] += atoll(p[2].c_str()); }
+          else if (p[0] == "M" && p.size() == 3) ctx.maxi(p[1], atoll(p[2].c_str()));
+          else if (p[0] == "V" && p.size() == 4) { ctx.violation(p[1], p[2], p[3]); ctx.counters["violating_cases"]--; }
+          else if (p[0] == "S" && p.size() == 2) ctx.sample(p[1]);
+          else if (p[0] == "O" && p.size() == 2) ctx.observe(p[1]);
+          else if (p[0] == "D" && p.size() == 2) ctx.nontrivial((uint64_t)strtoull(p[1].c_str(), nullptr, 10));
+        }
+    else complete = false;
+  }
+  if (!complete)
+    {
+      std::string key = "part=?", kase = unit_case, summary;
+      { std::ifstream c(base + ".current"); std::string l1, l2; if (std::getline(c, l1) && std::getline(c, l2)) { key = l1; kase = l2; while (!kase.empty() && kase.back() == ' ') kase.pop_back(); while (!key.empty() && key.back() == ' ') key.pop_back(); } }
+      std::string site;
+      {
+        std::ifstream e(base + ".err"); std::string l;
+        std::string file;
+        while (std::getline(e, l))
+          {
+            // first stack frame in a .cxx file of the library: the site a maintainer would look at
+            const size_t cx = l.find(".cxx:");
+            if (file.empty() && l.find("    #") == 0 && cx != std::string::npos)
+              { const size_t sl = l.rfind('/', cx); if (sl != std::string::npos && l.find("/harness/") == std::string::npos) file = l.substr(sl + 1, cx + 4 - sl - 1); }
+            if (l.find("SUMMARY: AddressSanitizer:") != std::string::npos)
+              {
+                summary = l;
+                std::vector<std::string> w = vmc::split(l, ' ');
+                if (w.size() > 2) site = ";asan=" + w[2];
+                break;
+              }
+          }
+        if (!file.empty()) site += ";file=" + file;
+      }
+      ctx.count("crashed_units");
+      ctx.violation("crash;" + key + site, kase,
+                    "child process died (" + (WIFSIGNALED(status) ? "signal " + vmc::str(WTERMSIG(status)) : "exit code " + vmc::str(WEXITSTATUS(status))) + ") while executing this case. " + summary);
+    }
+  for (const char* ext : { ".err", ".res", ".current" }) unlink((base + ext).c_str());
+}
+
+static int run_main(vmc::Ctx& ctx)
+{
+  ctx.rule = "one evaluation = one call of the real transform/filter on one (configuration, input): dft: (shape, sign, unit impulse k real|imaginary or one of 6 superpositions) "
+             "x {fourier, inverse_fourier, real-data route}; filters: (kernel index range, kernel from {unit taps, 2e_0, e_0+e_j, 2 labelling kernels}, boundary condition, "
+             "input range, output range/call form, data from {unit impulses, labelling, ones}); distinct non-trivial = distinct cases with a non-identity kernel/impulse position and a non-zero reference result";
+  ctx.assume("DFT convention as documented in fourier.h: F(x)_s = sum_r x_r exp(sign 2 pi i r s / n); reference in double; tolerance 32 eps_float (log2 N + 4) x sum|x| (real-data route: log2 N + 8)");
+  ctx.assume("completeness by (bi)linearity: agreement on every unit impulse (x every unit kernel tap) is agreement for all data up to rounding; shortcuts that break linearity in the kernel (is_trivial) are covered by the kernels 2e_0, e_0+e_j and the labelling kernels");
+  ctx.assume("convolution parts use small-integer kernels and data, exact in float: tolerance 1e-5 x sum|kernel| x sum|data|");
+  ctx.assume("padded-DFT filter is compared with direct convolution only if, per dimension, padded length >= 2 x span(input range U output range) and no non-zero tap outside [-(S-1),S-1] has a periodic image inside (otherwise counted in dftfilt_groups_outside_precondition); tolerance 64 eps_float (log2 P + 8) sum|k| sum|x|");
+  ctx.assume("Gaussian: FWHM in units of the sampling distance (fwhm/voxel); sigma = fwhm/sqrt(8 ln 2); k_i/k_0 within 1e-4 relative; sum within 1e-5; even max_kernel_size values are not enumerated (2*(m/2)+1 > m elements, not part of the statement)");
+  ctx.assume("Metz: the kernel is truncated at 1e-4 of its peak and at max_kernel_size WITHOUT renormalisation, so 'kernel sums to one' is checked with tolerance 2e-3 (measured on the pinned tree: <= 1e-4) and only for power 0 and kernels not shortened by max_kernel_size (others are counted and observed); kernel length read from the private coefficients");
+  ctx.assume("BoundaryConditions::periodic is not supported by ArrayFilter1DUsingConvolution (error()): recorded as rejected configuration");
+  if (freopen("/dev/null", "w", stdout) == nullptr) {} // SeparableMetzArrayFilter prints its kernels with printf
+  if (ctx.replaying()) { run_case(ctx, ctx.replay); return ctx.finish(); }
+  std::string parts = "dft,conv1d,conv1s,dftfilt,sep,gauss,metz";
+  bool forked = false;
+  for (size_t i = 0; i < ctx.extra_args.size(); ++i)
+    {
+      if (ctx.extra_args[i] == "--parts" && i + 1 < ctx.extra_args.size()) parts = ctx.extra_args[++i];
+      else if (ctx.extra_args[i] == "--fork") forked = true;
+    }
+  const bool th = ctx.thorough();
+  std::vector<std::string> units;
+  for (const std::string& p : vmc::split(parts, ','))
+    {
+      if (p == "dft") list_dft(th, units);
+      else if (p == "conv1d") list_conv1d(th, units);
+      else if (p == "conv1s") list_conv1s(th, units);
+      else if (p == "conv2d") list_convnd(2, th, units);
+      else if (p == "conv3d") list_convnd(3, th, units);
+      else if (p == "dftfilt") list_dftfilt(th, units);
+      else if (p == "sep") list_sep(th, units);
+      else if (p == "gauss") list_gauss(th, units);
+      else if (p == "metz") list_metz(th, units);
+      else if (p == "imgfilter") list_imgfilter(th, units);
+      else { fprintf(stderr, "unknown part %s\n", p.c_str()); return 2; }
+    }
+  for (uint64_t u = 0; u < units.size(); ++u)
+    {
+      if (!ctx.mine(u)) continue;
+      if (ctx.expired()) break;
+      if (forked) run_forked(ctx, units[u]); else run_case(ctx, units[u]);
+      ctx.count("units");
+    }
+  return ctx.finish();
+}
 
 // ------------------------------------------------------------------------------------------------
 int main(int argc, char** argv)
